@@ -639,13 +639,21 @@ fn has_control(s: &str) -> bool {
 }
 
 pub fn panic_class(msg: &str) -> &'static str {
-    if msg.contains("printer.rs:282") {
+    // classify by the text of the source line the panic names (robust against line shifts)
+    let line_text = msg
+        .split("printer.rs:")
+        .nth(1)
+        .and_then(|rest| rest.split(':').next())
+        .and_then(|n| n.trim().parse::<usize>().ok())
+        .and_then(|n| std::fs::read_to_string("/repo/src/printer.rs").ok().and_then(|src| src.lines().nth(n.saturating_sub(1)).map(|l| l.to_string())))
+        .unwrap_or_default();
+    if line_text.contains("limit - ELLIPSIS") {
         "C19/ellipsis-underflow"
-    } else if msg.contains("printer.rs:476") {
+    } else if line_text.contains("height as usize") {
         "C19/height-underflow"
-    } else if msg.contains("printer.rs:420") || msg.contains("printer.rs:422") || msg.contains("printer.rs:425") || msg.contains("printer.rs:462") {
+    } else if line_text.contains("len() - i") || line_text.contains("remaining -=") || line_text.contains("assert!(self.fits") {
         "C19/duplicate-column-resize"
-    } else if msg.contains("printer.rs:417") || msg.contains("printer.rs:445") || msg.contains("printer.rs:464") || msg.contains("printer.rs:384") {
+    } else if line_text.contains("column_widths[column_name]") || line_text.contains("column_widths.get(col).unwrap()") {
         "C19/column-without-width"
     } else {
         "C19/panic-other"
